@@ -117,7 +117,7 @@ def run(tier, seed):
         reqs.append('render %d %d %s' % (k, int(pad), tb(b)))
         meta.append((k, pad, b))
     rendered = lean_batch(reqs)
-    noise_pool = ['', '# comment', 'ILOG dump follows', '\n', '   ', 'xyz', '-----', 'Zeta 00', ': 0000', '\t00']
+    noise_pool = ['', '# comment', 'ILOG dump follows', '\n', '   ', 'xyz', '-----', 'Zeta 00', ': 0000', '\t00', 'taken 20240131: 09:15:22', 'g0000000: 09 15', 'note: a dump of drawer 2', '+1 errors', ' 7 of 9']
     reqs2, meta2 = [], []
     for (k, pad, b), r in zip(meta, rendered):
         lines = r.lines()
@@ -258,6 +258,9 @@ def hex_display_cli(ck, rng, hd, thorough):
                 pel = pelbuild.pel(secs, eid=0x50001000 + 16 * rnd + i, obmc=700 + 16 * rnd + i)
                 tail = rng.choice([b'', b'', b'\0' * rng.randrange(1, 9), bytes(rng.randrange(256) for _ in range(rng.randrange(1, 80)))])
                 files.append(('pel_%d_%d_%08X' % (rnd, i, 0x50001000 + 16 * rnd + i), pel + tail))
+            # a log of more than 4 / 16 KiB (one large section behind the SRC)
+            bigpel = pelbuild.pel([pelbuild.UH(), pelbuild.SRC(), pelbuild.UD(bytes(rng.randrange(256) for _ in range(rng.choice([5000, 20000]))), sub=2)], eid=0x50001F00 + rnd, obmc=790 + rnd)
+            files.append(('pel_%d_9_%08X' % (rnd, 0x50001F00 + rnd), bigpel))
             d = clirun.make_dir(files)
             paths.append(d)
             runs = [(['-p', d, '-a', '-x', '-E'], [b for _, b in sorted(files)]), (['-p', d, '-l', '-x', '-E'], [b for _, b in sorted(files)])]
@@ -266,6 +269,8 @@ def hex_display_cli(ck, rng, hd, thorough):
             n0, b0 = files[0]
             runs.append((['-p', d, '-i', n0[-8:], '-x'], [b0]))
             runs.append((['-p', d, '--bmc-id', str(700 + 16 * rnd), '-x'], [b0]))
+            runs.append((['-p', d, '--plid', '50000001', '-x'], [b for _, b in sorted(files)]))
+            runs.append((['-p', d, '--src', 'BD8D', '-x'], [b for _, b in sorted(files)]))
             for argv, want in runs:
                 so, se, sx = clirun.run_main(argv)
                 blocks, cur = [], None
